@@ -41,6 +41,8 @@ type harnessCfg struct {
 	TimeoutMs int     `json:"timeout_ms"`
 	Bounds   string   `json:"bounds"`
 	Twin     string   `json:"twin"` // vacuity twin entry (must be violated)
+	Subst    map[string]string `json:"subst"` // program function -> harness stub executed in its place
+	NoValidate bool   `json:"no_validate"` // passing paths are not replayed natively (harness runs on stubs only the engine has)
 }
 
 type checkCfg struct {
@@ -142,7 +144,7 @@ func cmdCheck(args []string) int {
 				fmt.Fprintln(os.Stderr, "gosx:", err)
 				return 2
 			}
-			dst := filepath.Join(pkgDir(h.Pkg), filepath.Base(f))
+			dst := overlayDest(f, h.Pkg)
 			ov[dst] = b
 			ovFiles[dst] = src
 		}
@@ -231,7 +233,7 @@ func cmdCheck(args []string) int {
 			params[k] = v
 		}
 		hc := interp.HarnessConfig{Pkg: h.Pkg, Func: h.Func, Budget: h.Budget, Workers: tc.Workers, Solver: h.Solver,
-			TimeoutMs: h.TimeoutMs, InitRun: h.InitRun, InitSkip: h.InitSkip, Params: params, Seed: seed}
+			TimeoutMs: h.TimeoutMs, InitRun: h.InitRun, InitSkip: h.InitSkip, Params: params, Seed: seed, Subst: h.Subst}
 		if tc.WallS > 0 {
 			hc.Wall = time.Duration(tc.WallS) * time.Second
 		}
@@ -311,7 +313,7 @@ func cmdCheck(args []string) int {
 			sfiles = append(sfiles, p)
 			samples = append(samples, s)
 		}
-		if len(sfiles) > 0 && !*noNative {
+		if len(sfiles) > 0 && !*noNative && !h.NoValidate {
 			nres, err := nat.run(h.Pkg, sfiles)
 			if err != nil {
 				engineErr = "native replay: " + err.Error()
@@ -445,6 +447,21 @@ func cmdCheck(args []string) int {
 	}
 	fmt.Fprintf(os.Stderr, "[%s] tier=%s exit=%d paths=%d obligations=%d/%d validated=%d wall=%.1fs\n", id, *tier, exit, states, discharged, obligations, validated, time.Since(t0).Seconds())
 	return exit
+}
+
+// overlayDest maps a harness file to its virtual place in /repo: a file
+// harness/<dir...>/x.go goes to /repo/<dir...>/x.go when that directory exists
+// (so one harness may bring helper files for other packages), otherwise into
+// the directory of the harness's own package.
+func overlayDest(f, pkg string) string {
+	rel := filepath.ToSlash(f)
+	if strings.HasPrefix(rel, "harness/") {
+		d := filepath.Dir(strings.TrimPrefix(rel, "harness/"))
+		if st, err := os.Stat(filepath.Join(repoRoot(), d)); err == nil && st.IsDir() && d != "." {
+			return filepath.Join(repoRoot(), d, filepath.Base(f))
+		}
+	}
+	return filepath.Join(pkgDir(pkg), filepath.Base(f))
 }
 
 func equalStrings(a, b []string) bool {
